@@ -27,15 +27,48 @@ RULE_C01 = ("emulated tags: data area 16..4096 bytes (Nmaxb 1..256, i.e. includi
             "Nbr 1..15, Nbw 1..13 announced in the attribute block, IDm 02FEh.., system code 12FCh with/without RD "
             "in SENSF_RES; chain of writes through a real Type3Tag reader with lengths {0,1,15,16,17,253..256,"
             "Nbw*16+-1,capacity-1,capacity,random} (all lengths for capacity <= 48), each verified by a fresh reader "
-            "and by the reference reader on the emulation's byte array, then capacity+1; distinct by (layout,length)")
+            "and by the reference reader on the emulation's byte array, then capacity+1; distinct by (layout,length).  "
+            "Grid (deterministic, every run): Nbw 1..13 x Nmaxb {Nbw, Nbw+1, 2*Nbw+1} (2-byte block list elements, 13 is "
+            "what Type3Tag.format() configures) and Nbr 1..15 x Nmaxb {Nbr, Nbr+1} with lengths that fill a whole "
+            "command (Nbw*16, Nbr*16, capacity); Nbw 1..12 x Nmaxb 256..300 (3-byte elements).  Observed on the wire "
+            "and required: answered Write commands with every block count 1..13, Read commands with 1..15, 3-byte "
+            "elements.  Correlated contents (identical message again, 1 / 2 blocks changed) and a second assignment "
+            "on the same NDEF object for a third of the layouts")
 REQUIRED_C01 = ["t3emu_roundtrips", "t3emu_refreader_agree", "t3emu_oversize_rejected", "t3emu_len_capacity",
-                "t3emu_len_zero"]
+                "t3emu_len_zero", "t3emu_len_254_255", "t3emu_3byte_blocknumber", "t3emu_grid_layouts",
+                "t3emu_3byte_block_element_on_wire", "t3emu_correlated_identical", "t3emu_correlated_one_block_changed",
+                "t3emu_correlated_two_blocks_changed", "t3emu_second_assignment_same_object"] + [
+    "t3emu_write_cmd_blocks_%d" % _n for _n in range(1, 14)] + [
+    "t3emu_read_cmd_blocks_%d" % _n for _n in range(1, 16)]
 
 
 def mk_msg(salt, n):
     a = (salt * 131 + 17) & 0xFF
     step = 2 * (salt % 7) + 3
     return bytes((a + i * step + (i >> 8) * 29 + (i >> 4) * salt) & 0xFF for i in range(n))
+
+
+class HarnessLimit(Exception):
+    """the way this harness drives the emulation (no frontend, process_command called directly) does not work"""
+
+
+def attempt(fn):
+    try:
+        return "ok", fn()
+    except HarnessLimit:
+        raise
+    except Exception as e:      # noqa
+        return "exc", e
+
+
+def vary_msg(msg, nblocks=1, at=0):
+    out = bytearray(msg)
+    nb = (len(out) + 15) // 16
+    for b in range(min(nblocks, nb)):
+        blk = (at + b * 3) % nb
+        for i in range(16 * blk, min(len(out), 16 * blk + 16)):
+            out[i] ^= 0x5A
+    return bytes(out)
 
 
 class EmuTag(object):
@@ -53,6 +86,7 @@ class EmuTag(object):
         self.mem = bytearray(t3_attr.encode(0x10, nbr, nbw, nmaxb, 0, 1, len(message)) + data
                              + bytes([0xEE]) * 16 * guard)
         self.process_errors = []
+        self.harness_limit = None
         self.emu = None
         self.power_cycle()
 
@@ -60,7 +94,12 @@ class EmuTag(object):
         target = nfc.clf.LocalTarget("212F")
         target.sensf_res = bytearray(b"\x01" + self.idm + self.pmm + self.sys)
         target.tt3_cmd = bytearray.fromhex("0602fe010203040506")       # the command that activated the emulation
-        emu = nfc.tag.tt3.Type3TagEmulation(None, target)
+        try:
+            # the emulation is constructed without a frontend (process_command() needs none); if the constructor ever
+            # touches it, that is a limit of this harness, not a defect of nfcpy
+            emu = nfc.tag.tt3.Type3TagEmulation(None, target)
+        except (AttributeError, TypeError) as e:
+            raise HarnessLimit("Type3TagEmulation(None, target): %r" % (e,))
         mem = self.mem
 
         def ndef_read(block_number, rb, re):
@@ -118,6 +157,10 @@ class EmuDevice(nfc.clf.device.Device):
         try:
             rsp = self.t.emu.process_command(bytearray(cmd))
         except Exception as e:                      # the emulation must not crash on what the reader sends
+            import traceback
+            tb = traceback.extract_tb(e.__traceback__)
+            if isinstance(e, AttributeError) and "NoneType" in str(e) and tb and tb[-1].name != "ndef_read" and "clf" in (tb[-1].line or ""):
+                self.t.harness_limit = "process_command() used the frontend the harness does not provide: %r" % (e,)
             self.t.process_errors.append((bytes(cmd), e))
             return None
         return None if rsp is None else bytearray(rsp)
@@ -172,7 +215,29 @@ def lengths_for(cap, nbw, rng):
     return out
 
 
+def grid_layouts(rng, sub=0):
+    """the deterministic part: every Nbw 1..13 and Nbr 1..15 with data areas that make whole commands necessary"""
+    out = []
+    for nbw in range(1, 14):
+        for nmaxb in (nbw, nbw + 1, 2 * nbw + 1):
+            out.append((1 + (nbw + nmaxb + sub) % 15, nbw, nmaxb, [nbw * 16, nbw * 16 - 1, nmaxb * 16, 0]))
+    for nbr in range(1, 16):
+        for nmaxb in (nbr, nbr + 1):
+            out.append((nbr, 1 + (nbr + nmaxb + sub) % 13, nmaxb, [nbr * 16, nmaxb * 16, 1]))
+    for nbw in range(1, 13):
+        nmaxb = 256 + (nbw * 4 + sub) % 45
+        out.append((15 - nbw % 3, nbw, nmaxb, [nmaxb * 16, 255 * 16 + 1, 0]))      # 3-byte block list elements
+    return out
+
+
 def run_c01(desc, R, rng):
+    for nbr, nbw, nmaxb, lengths in grid_layouts(rng, desc.get("sub", 0)):
+        cap = nmaxb * 16
+        lay = {"nbr": nbr, "nbw": nbw, "nmaxb": nmaxb, "rd": rng.random() < 0.7, "old_salt": rng.randrange(1, 200),
+               "old_len": rng.choice([0, cap, rng.randrange(cap + 1)])}
+        R.count("t3emu_grid_layouts")
+        if not c01_guarded({"family": FAM, "layout": lay, "lengths": lengths, "salt": rng.randrange(1, 250), "grid": True}, R):
+            return
     pairs = [(r, w) for r in range(1, 16) for w in range(1, 14)]
     rng.shuffle(pairs)
     for i in range(desc["n"]):
@@ -184,11 +249,37 @@ def run_c01(desc, R, rng):
         lay = {"nbr": nbr, "nbw": nbw, "nmaxb": nmaxb, "rd": rng.random() < 0.7, "old_salt": rng.randrange(1, 200),
                "old_len": rng.choice([0, 1, min(cap, 255), cap, rng.randrange(cap + 1)])}
         case = {"family": FAM, "layout": lay, "lengths": lengths_for(cap, nbw, rng), "salt": rng.randrange(1, 250)}
+        if i % 3 == 0:
+            case["correlated"] = rng.randrange(0, 40)
+        if not c01_guarded(case, R):
+            return
+
+
+def c01_guarded(case, R):
+    try:
         c01_case(case, R)
+    except HarnessLimit as e:
+        R.inconc("t3emu harness: " + str(e))
+        return False
+    return True
 
 
 def replay_c01(case, R):
-    c01_case(case, R)
+    c01_guarded(case, R)
+
+
+def wire_counters(dev, l0, R):
+    """answered Read / Write Without Encryption commands of the reader: number of block list elements, element size"""
+    for cmd, rsp in dev.log[l0:]:
+        if rsp is None or len(rsp) < 12 or rsp[10] != 0 or len(cmd) < 14 or cmd[1] not in (0x06, 0x08):
+            continue
+        ns = cmd[10]
+        at = 11 + 2 * ns
+        if at >= len(cmd):
+            continue
+        R.count("t3emu_%s_cmd_blocks_%d" % ("write" if cmd[1] == 0x08 else "read", cmd[at]))
+        if cmd[at] and not cmd[at + 1] & 0x80:
+            R.count("t3emu_3byte_block_element_on_wire")
 
 
 def _first_diff(a, b):
@@ -211,7 +302,11 @@ def c01_case(case, R):
         c.update(more)
         R.violation("t3emu/c01/" + sig, "%s (Nbr %d Nbw %d Nmaxb %d)" % (what, lay["nbr"], lay["nbw"], lay["nmaxb"]), c)
 
-    clf, dev, tag = activate(t)
+    st, v = attempt(lambda: activate(t))
+    if st != "ok":
+        viol("activation-raises/" + exc_sig(v), "discovery / activation of the emulated tag raised: " + exc_text(v)[-300:])
+        return
+    clf, dev, tag = v
     if tag is None:
         viol("not-activated", "the emulated tag was not discovered/activated")
         return
@@ -220,6 +315,8 @@ def c01_case(case, R):
     except Exception as e:
         viol("ndef-raises/" + exc_sig(e), "tag.ndef raised: " + exc_text(e)[-300:])
         return
+    if t.harness_limit:
+        raise HarnessLimit(t.harness_limit)
     if nd is None:
         viol("ndef-none", "tag.ndef is None on a well-formed emulated tag")
         return
@@ -230,30 +327,55 @@ def c01_case(case, R):
     if nd.octets != old:
         viol("initial-read-mismatch", "existing message of %d bytes read back differently" % len(old))
     cap = nd.capacity
-    for j, L in enumerate(case["lengths"]):
-        if L > cap:
-            continue
-        msg = mk_msg(salt + j, L)
-        clf, dev, tag = activate(t)
-        nd = tag.ndef
-        if nd is None or not nd.is_writeable:
-            viol("not-writeable", "ndef None / not writeable before write #%d" % j, step=j)
-            return
+    chain = [(j, mk_msg(salt + j, L), None) for j, L in enumerate(case["lengths"]) if L <= cap]
+    if "correlated" in case and cap >= 16:
+        L = max(16, min(cap, 16 * (1 + case["correlated"] % max(1, cap // 16)) + case["correlated"] % 16))
+        base = mk_msg(salt + 77, L)
+        j0 = len(case["lengths"])
+        chain += [(j0, base, None), (j0 + 1, base, "identical"), (j0 + 2, vary_msg(base, 1, case["correlated"]), "one_block_changed"),
+                  (j0 + 3, vary_msg(base, 2, case["correlated"] + 1), "two_blocks_changed"),
+                  (j0 + 4, mk_msg(salt + 78, max(0, L - 17)), "second")]
+    for j, msg, corr in chain:
+        L = len(msg)
+        if corr != "second":
+            # ("second": the assignment is made on the NDEF object of the previous step)
+            st, v = attempt(lambda: activate(t))
+            err = v if st != "ok" else None
+            if st == "ok" and v[2] is not None:
+                clf, dev, tag = v
+                st, nd = attempt(lambda: tag.ndef)
+                err = nd if st != "ok" else None
+            if err is not None:
+                viol("reactivation-raises/" + exc_sig(err), "activation / tag.ndef before write #%d raised %s" % (
+                    j, exc_text(err)[-200:]), step=j)
+                return
+            if v[2] is None or nd is None or not nd.is_writeable:
+                viol("not-writeable", "ndef None / not writeable before write #%d" % j, step=j)
+                return
+        l0 = len(dev.log)
         try:
             nd.octets = msg
         except Exception as e:
             viol("write-raises/" + exc_sig(e), "octets = <%d bytes> raised: %s" % (L, exc_text(e)[-300:]), step=j)
             return
-        clf2, dev2, tag2 = activate(t)
         try:
-            nd2 = tag2.ndef
+            clf2, dev2, tag2 = activate(t)
+            nd2 = tag2.ndef if tag2 is not None else None
             got = None if nd2 is None else nd2.octets
         except Exception as e:
             viol("readback-raises/" + exc_sig(e), "fresh read raised: " + exc_text(e)[-300:], step=j)
             return
+        if t.harness_limit:
+            raise HarnessLimit(t.harness_limit)
         st, ref, attr = t3_attr.ref_read(t.get_block)
-        R.case(lk + [L])
+        R.case(lk + [L, corr])
         R.count("t3emu_roundtrips")
+        wire_counters(dev, l0, R)
+        wire_counters(dev2, 0, R)
+        if corr == "second":
+            R.count("t3emu_second_assignment_same_object")
+        elif corr:
+            R.count("t3emu_correlated_" + corr)
         if L == 0:
             R.count("t3emu_len_zero")
         if L in (254, 255):
@@ -269,6 +391,10 @@ def c01_case(case, R):
             R.count("t3emu_refreader_agree")
         else:
             viol("refreader-mismatch", "reference reader on the emulation memory: %s" % st, step=j)
+        if attr and any(attr[f] != want for f, want in (("ver", 0x10), ("nbr", lay["nbr"]), ("nbw", lay["nbw"]),
+                                                        ("nmaxb", lay["nmaxb"]), ("rwflag", 1))):
+            viol("attribute-changed", "write changed Ver/Nbr/Nbw/Nmaxb/RWFlag: %r" % {
+                k: attr[k] for k in ("ver", "nbr", "nbw", "nmaxb", "rwflag")}, step=j)
         if bytes(t.mem[(lay["nmaxb"] + 1) * 16:]) != guard0:
             viol("guard-changed", "bytes behind the NDEF data area changed", step=j)
         if t.process_errors:
@@ -276,8 +402,15 @@ def c01_case(case, R):
             viol("emulation-raises/" + exc_sig(e), "process_command(%s..) raised %r" % (cmd[:14].hex(), e), step=j)
             return
     # oversize
-    clf, dev, tag = activate(t)
-    nd = tag.ndef
+    st, v = attempt(lambda: activate(t))
+    err = v if st != "ok" else None
+    if st == "ok" and v[2] is not None:
+        clf, dev, tag = v
+        st, nd = attempt(lambda: tag.ndef)
+        err = nd if st != "ok" else None
+    if err is not None or v[2] is None or nd is None:
+        viol("not-writeable", "activation / tag.ndef failed before the capacity+1 assignment")
+        return
     before = bytes(t.mem)
     n0 = dev.n_commands
     R.case(lk + ["oversize"])
